@@ -12,3 +12,12 @@ package allegra
 //@   ensures lower: err == nil ==> start == 0 || slot >= start
 //@   ensures upper: err == nil ==> ttl == 0 || slot < ttl
 //@   cover accepts: err == nil && start != 0 && ttl != 0
+
+// C34: with body validation enabled the era decoder succeeds only if ValidateBlockBodyHash accepted
+// these very bytes against the decoded header's own body hash, over the era's 4 top-level items.
+//@ func NewAllegraBlockFromCbor(data, config) (blk, err)
+//@   props C34
+//@   attr trackcalls on
+//@   ensures checked: err == nil && !old(len(config) > 0 && config[0].SkipBodyHashValidation) ==>
+//@       called(ValidateBlockBodyHash) && callres(ValidateBlockBodyHash) == nil && callarg(ValidateBlockBodyHash, 0) == data &&
+//@       callarg(ValidateBlockBodyHash, 3) == 4 && called(BlockBodyHash) && callarg(ValidateBlockBodyHash, 1) == callres(BlockBodyHash)
